@@ -284,11 +284,27 @@ def py_tree(T, v):
 # raw structural digest (no method calls on pyasn1 objects)
 # ---------------------------------------------------------------------------
 
-def shape(obj, depth=0, seen=None):
+def _shape_ordered(obj, depth, seen):
+    if isinstance(obj, dict):
+        return ('odict',) + tuple((repr(k), _shape_ordered(x, depth + 1, seen)) for k, x in obj.items())
+    if isinstance(obj, (tuple, list)):
+        return (type(obj).__name__,) + tuple(_shape_ordered(x, depth + 1, seen) for x in obj)
+    if isinstance(obj, _base.Asn1Item) and depth <= 12:
+        d = object.__getattribute__(obj, '__dict__')
+        cv = d.get('_componentValues')
+        return (shape(obj, depth, seen), _shape_ordered(cv, depth + 1, seen) if isinstance(cv, (dict, list, tuple)) else None)
+    return shape(obj, depth, seen)
+
+
+def shape(obj, depth=0, seen=None, keep_order=False):
     """Raw __dict__-walking digest of a pyasn1 object used for state hashing and purity
-    snapshots.  Never calls a pyasn1 method (isinstance/type only)."""
+    snapshots.  Never calls a pyasn1 method (isinstance/type only).  keep_order: dicts are digested in their
+    insertion order (the library iterates its position -> member dicts, so two objects that differ only there
+    have different futures and must not be merged by an explicit-state search)."""
     if seen is None:
         seen = {}
+    if keep_order:
+        return _shape_ordered(obj, depth, seen)
     if depth > 12:
         return '...'
     if obj is None or isinstance(obj, (bool, int, float, str, bytes)):
